@@ -8,9 +8,11 @@ PROPS = {
     "C13": {
         "units": ["bitstream"],
         "kani": {"quick": STD_SPECS + ["c13_read_cmr_complete", "c13_read_cmr_short_complete"],
-                 "thorough": ["c13_read_fail_entropy_complete", "c13_collect_bits_bounded20", "c13_writer_ops_bounded", "c13_reader_ops_bounded", "c13_write_after_flush_bounded"]},
+                 "thorough": ["c13_read_fail_entropy_complete", "c13_collect_bits_bounded20", "c13_writer_ops_bounded", "c13_reader_ops_bounded", "c13_write_after_flush_bounded", "c13_window_close_bounded"]},
         "cex": {"BitIter::byte_slice_window": "c13_byte_slice_window_exact_cex", "BitWriter::flush_all": "c13_write_after_flush_bounded",
-                "BitWriter::write_bit": "c13_write_after_flush_bounded"},
+                "BitWriter::write_bit": "c13_write_after_flush_bounded", "BitWriter::write": "c13_writer_ops_bounded", "BitWriter::write_bits_be": "c13_writer_ops_bounded",
+                "BitIter::next": "c13_reader_ops_bounded", "BitIter::read_bit": "c13_reader_ops_bounded", "BitIter::read_u2": "c13_reader_ops_bounded", "BitIter::read_u8": "c13_reader_ops_bounded",
+                "BitIter::close": "c13_window_close_bounded"},
         "fallback": {
             "BitWriter::write_bit": ["c13_writer_ops_bounded"],
             "BitWriter::write_bits_be": ["c13_writer_ops_bounded"],
@@ -20,7 +22,7 @@ PROPS = {
             "BitIter::read_bit": ["c13_reader_ops_bounded"],
             "BitIter::read_u2": ["c13_reader_ops_bounded"],
             "BitIter::read_u8": ["c13_reader_ops_bounded", "c13_read_cmr_complete"],
-            "BitIter::close": ["c13_reader_ops_bounded"],
+            "BitIter::close": ["c13_reader_ops_bounded", "c13_window_close_bounded"],
             "BitIter::byte_slice_window": ["c13_byte_slice_window_exact_cex"],
         },
         "level": "proof",
@@ -74,8 +76,9 @@ PROPS = {
             "get_indices": ["c05_frame_write_bit_bounded", "c05_frame_read_peek_bounded"],
         },
 
-        "kani": {"quick": ["s07_usize_div_ceil_8", "c07_bounds_dominate_children_complete", "c07_bounds_comp_complete"], "thorough": []},
-        "cex": {"NodeBounds::case": "c07_bounds_dominate_children_complete", "NodeBounds::comp": "c07_bounds_comp_complete"},
+        "kani": {"quick": ["s07_usize_div_ceil_8", "c07_bounds_dominate_children_complete", "c07_bounds_comp_complete", "c07_limits_complete"], "thorough": []},
+        "cex": {"NodeBounds::case": "c07_bounds_dominate_children_complete", "NodeBounds::comp": "c07_bounds_comp_complete",
+                "LimitError::check_max_frames": "c07_limits_complete", "LimitError::check_max_cells": "c07_limits_complete"},
         "level": "proof",
         "level_text": "Unbounded deductive proof (Verus) of (1) every Bit Machine memory primitive (Frame::*, BitMachine::{new_write_frame, "
                       "move_write_frame_to_read, drop_read_frame, write_bit, write_u8, write_bytes, read_bit, copy, skip, fwd, back}): indices in "
@@ -147,6 +150,9 @@ PROPS = {
     },
     "C10": {
         "units": ["value"],
+        "native_cex": "c11_value_order_replay",
+        "native_thorough": "c11_value_order_replay",
+        "native_fallback": "c11_value_order_replay",
         "exclude_functions": {"value": ["Finalizer1::convert_witness", "Finalizer2::convert_witness", "DecodeFinalizer::convert_witness"]},
         "kani": {"quick": ["s07_usize_div_ceil_8"], "thorough": ["c10_copy_bits_bounded"]},
         "fallback": {"copy_bits": ["c10_copy_bits_bounded"]},
@@ -169,6 +175,9 @@ PROPS = {
     },
     "C12": {
         "units": ["value"],
+        "native_cex": "c02_codec_replay",
+        "native_thorough": "c02_codec_replay",
+        "native_fallback": "c02_codec_replay",
         "functions": {"value": ["Finalizer1::convert_witness", "Finalizer2::convert_witness", "DecodeFinalizer::convert_witness",
                                 "Value::zero", "Value::prune", "Value::from_compact_bits", "Value::from_padded_bits", "Value::shallow_clone",
                                 "Value::left", "Value::right", "Value::product", "Value::unit", "Value::is_of_type", "final_eq",
